@@ -100,7 +100,7 @@ def e_incomparable():
         for combo in itertools.product(kinds, repeat=n):
             if n == 4 and combo[0] not in ('full', 'incunit'):
                 continue
-            for traits in (['PartialEq'], ['PartialOrd', 'PartialEq'], ['PartialOrd', 'Clone']):
+            for traits in (['PartialEq'], ['PartialOrd', 'PartialEq'], ['PartialOrd', 'PartialEq', 'Clone']):
                 yield Item('enum', I('A'), tparam(), [], False, [dw(traits)],
                            [variant(i, k) for i, k in enumerate(combo)])
     for shape in ('named', 'tuple', 'unit'):
